@@ -163,14 +163,18 @@ def lastOr0 : List Nat → Nat
 def useSparse (signers : List Nat) : Bool :=
   lastOr0 signers / 8 + 1 > signers.length * 2
 
+/-- the mask part of `EncodeAggregatedSignature`: kind byte, then the ordinary mask
+    (`WriteInt(len(masks)); Write(masks)`) or the sparse list (`WriteInt(len); WriteInt(m)…`) -/
+def encMask (signers : List Nat) : Bytes :=
+  if signers.isEmpty then [0x00] ++ writeU16 0
+  else if useSparse signers then
+    [0x01] ++ writeU16 signers.length ++ signers.flatMap writeU16
+  else
+    [0x00] ++ writeU16 (lastOr0 signers / 8 + 1) ++ maskBytes signers (lastOr0 signers / 8 + 1)
+
 /-- `Encoder.EncodeAggregatedSignature` -/
 def encAgg (a : AggSig) : Bytes :=
-  writeU16 maxEncodingInt ++ writeU16 aggPrefix ++ a.sig ++
-    (if a.signers.isEmpty then [0x00] ++ writeU16 0
-     else if useSparse a.signers then
-       [0x01] ++ writeU16 a.signers.length ++ a.signers.flatMap writeU16
-     else
-       [0x00] ++ writeU16 (lastOr0 a.signers / 8 + 1) ++ maskBytes a.signers (lastOr0 a.signers / 8 + 1))
+  writeU16 maxEncodingInt ++ writeU16 aggPrefix ++ a.sig ++ encMask a.signers
 
 def encAuth (agg : Option AggSig) (sigs : List SigMap) : Bytes :=
   match agg with
@@ -203,8 +207,8 @@ def guardsMint (m : Mint) : Bool :=
 
 def guardsInput (i : Input) : Bool :=
   i.index ≤ inputIndexLimit && i.genesis.length ≤ maxEncodingInt &&
-    (match i.deposit with | none => true | some d => guardsDeposit d) &&
-    (match i.mint with | none => true | some m => guardsMint m)
+    i.deposit.all guardsDeposit &&
+    i.mint.all guardsMint
 
 def guardsWithdrawal (w : Withdrawal) : Bool :=
   w.address.length ≤ maxEncodingInt && w.tag.length ≤ maxEncodingInt
@@ -212,7 +216,7 @@ def guardsWithdrawal (w : Withdrawal) : Bool :=
 def guardsOutput (o : Output) : Bool :=
   byteLen o.amount ≤ maxEncodingInt && o.keys.length ≤ maxEncodingInt &&
     o.script.length ≤ maxEncodingInt &&
-    (match o.withdrawal with | none => true | some w => guardsWithdrawal w)
+    o.withdrawal.all guardsWithdrawal
 
 def guardsAgg (a : AggSig) : Bool :=
   a.signers.isEmpty || validSigners a.signers
@@ -262,14 +266,14 @@ def repMint (m : Mint) : Bool := m.batch < 18446744073709551616
 
 def repInput (i : Input) : Bool :=
   i.hash.length == 32 &&
-    (match i.deposit with | none => true | some d => repDeposit d) &&
-    (match i.mint with | none => true | some m => repMint m)
+    i.deposit.all repDeposit &&
+    i.mint.all repMint
 
 def repOutput (o : Output) : Bool :=
   o.keys.all (fun k => k.length == 32) && o.mask.length == 32
 
 def repAuth (agg : Option AggSig) (sigs : List SigMap) : Bool :=
-  (match agg with | none => true | some a => a.sig.length == 64) && sigs.all repSigMap
+  agg.all (fun a => a.sig.length == 64) && sigs.all repSigMap
 
 def repPayload (p : Payload) : Bool :=
   p.asset.length == 32 && p.inputs.all repInput && p.outputs.all repOutput &&
@@ -281,6 +285,22 @@ def rep (tx : Tx) : Bool := repPayload tx.toPayload && repAuth tx.agg tx.sigs
 def WF (tx : Tx) : Prop := rep tx = true ∧ guards tx = true
 
 instance (tx : Tx) : Decidable (WF tx) := by unfold WF; exact inferInstance
+
+/-- The decoder's own limits, i.e. what separates "the encoder does not panic" from "the
+    decoder accepts the encoder's output": at most `SliceCountLimit` references, keys per
+    output and signature maps; not both kinds of authorization data (the encoder drops the
+    maps when an aggregate is present); total size within `TransactionMaximumSize`.
+    (Minimal-length integers, sorted map entries and the mask kind are canonical by
+    construction of the representation / of `encMask`.) -/
+def canon (tx : Tx) : Bool :=
+  tx.references.length ≤ sliceCountLimit &&
+    tx.outputs.all (fun o => o.keys.length ≤ sliceCountLimit) &&
+    tx.sigs.length ≤ sliceCountLimit &&
+    (tx.agg.isNone || tx.sigs.isEmpty)
+
+def Canon (tx : Tx) : Prop := canon tx = true ∧ (encodeTx tx).length ≤ txMaxSize
+
+instance (tx : Tx) : Decidable (Canon tx) := by unfold Canon; exact inferInstance
 
 /-! ## decoder -/
 
@@ -353,17 +373,20 @@ def readOutputType (s : Bytes) : Option (UInt8 × Bytes) :=
   | some ([t0, t1], s) => if t0 ≠ 0 then none else some (t1, s)
   | _ => none
 
-/-- `Decoder.ReadOutput` -/
-def readOutput (s : Bytes) : Option (Output × Bytes) := do
+/-- `Decoder.ReadOutput`; the count limit is a parameter (`lim = SliceCountLimit` in the code)
+    so that theorems about the byte format itself can be stated for any limit -/
+def readOutputL (lim : Nat) (s : Bytes) : Option (Output × Bytes) := do
   let (t, s) ← readOutputType s
   let (amt, s) ← readInteger s
   let (kc, s) ← readU16 s
-  if kc > sliceCountLimit then none else
+  if kc > lim then none else
   let (keys, s) ← readMany (readN 32) kc s
   let (mask, s) ← readN 32 s
   let (sb, s) ← readBytes s
   let (w, s) ← readOptWithdrawal s
   some ({ type := t, amount := amt, keys := keys, mask := mask, script := sb, withdrawal := w }, s)
+
+def readOutput : Bytes → Option (Output × Bytes) := readOutputL sliceCountLimit
 
 /-- `sm[si] = &sig` on the sorted-entries representation -/
 def sigInsert (k : Nat) (v : Bytes) : SigMap → SigMap
@@ -439,19 +462,23 @@ def readExtra (s : Bytes) : Option (Bytes × Bytes) :=
     else if el > 0 then readN el s
     else some ([], s)
 
-def readCounted {α : Type} (f : Bytes → Option (α × Bytes)) (s : Bytes) : Option (List α × Bytes) :=
+/-- `n, err := dec.ReadInt(); if n > limit { error }; for i := range n { … }` -/
+def readCounted {α : Type} (lim : Nat) (f : Bytes → Option (α × Bytes)) (s : Bytes) : Option (List α × Bytes) :=
   match readU16 s with
   | none => none
-  | some (n, s) => if n > sliceCountLimit then none else readMany f n s
+  | some (n, s) => if n > lim then none else readMany f n s
 
-def readPayload (s : Bytes) : Option (Payload × Bytes) := do
+/-- the payload part of `DecodeTransaction` with count limit `lim` -/
+def readPayloadL (lim : Nat) (s : Bytes) : Option (Payload × Bytes) := do
   let (v, s) ← readVersion s
   let (asset, s) ← readN 32 s
-  let (ins, s) ← readCounted readInput s
-  let (outs, s) ← readCounted readOutput s
-  let (refs, s) ← readCounted (readN 32) s
+  let (ins, s) ← readCounted lim readInput s
+  let (outs, s) ← readCounted lim (readOutputL lim) s
+  let (refs, s) ← readCounted lim (readN 32) s
   let (extra, s) ← readExtra s
   some ({ version := v, asset := asset, inputs := ins, outputs := outs, references := refs, extra := extra }, s)
+
+def readPayload : Bytes → Option (Payload × Bytes) := readPayloadL sliceCountLimit
 
 /-- `Decoder.DecodeTransaction`, including the final "nothing may follow" check -/
 def decodeRaw (b : Bytes) : Option Tx := do
